@@ -54,7 +54,8 @@ var forgeries = []string{"flag-cleared-trailer-kept", "flag-cleared-no-trailer",
 	"authcode-other-session", "authcode-range-skips-first-byte", "authcode-range-includes-rmcp", "authcode-range-excludes-trailer", "wrong-session-id", "plaintext-unsigned",
 	"plaintext-unsigned-wrong-id", "flag-set-no-trailer", "flag-set-ff-only", "plaintext-flag-set-no-trailer", "plaintext-flag-set-ff-only", "pad-bytes-wrong", "pad-length-large", "pad-longer-than-data",
 	"addressed-to-bmc-session-id", "addressed-to-null-session", "addressed-to-byteswapped-id",
-	"pad-two-bytes-swapped", "pad-reversed", "pad-zero-filled", "pad-same-bit-in-two-bytes"}
+	"pad-two-bytes-swapped", "pad-reversed", "pad-zero-filled", "pad-same-bit-in-two-bytes",
+	"authcode-zero-tail-cut", "authcode-zero-appended"}
 
 // commands with a response body whose value the forger changes
 var cmdNames = []string{"GetSystemGUID", "GetDeviceID", "GetChannelAuthenticationCapabilities"}
@@ -120,6 +121,25 @@ func attackDatagram(a Attack, R []byte, s *simbmc.Session, b *simbmc.BMC, other 
 	forged := forgeMessage(plain)
 	var iv [16]byte
 	copy(iv[:], b.Rand.Bytes(16))
+	switch a.Forge {
+	case "authcode-zero-tail-cut":
+		// a correctly signed packet (carrying the other value) whose AuthCode
+		// happens to end in 0x00, delivered without those trailing zero bytes
+		for try := 0; try < 20000; try++ {
+			copy(iv[:], b.Rand.Bytes(16))
+			d := ref.BuildPacket(&ref.Packet{Encrypted: true, Authenticated: true, PayloadType: ref.PTIPMI, SessionID: s.ConsoleID, Seq: pkt.Seq, Payload: ref.AESEncrypt(s.K2, iv, forged)}, s.Suite.Integ, s.K1)
+			if d[len(d)-1] == 0 {
+				for d[len(d)-1] == 0 {
+					d = d[:len(d)-1]
+				}
+				return d
+			}
+		}
+		panic("harness: no AuthCode ending in zero found")
+	case "authcode-zero-appended":
+		d := ref.BuildPacket(&ref.Packet{Encrypted: true, Authenticated: true, PayloadType: ref.PTIPMI, SessionID: s.ConsoleID, Seq: pkt.Seq, Payload: ref.AESEncrypt(s.K2, iv, forged)}, s.Suite.Integ, s.K1)
+		return append(d, make([]byte, 1+a.Param%4)...)
+	}
 	encPayload := ref.AESEncrypt(s.K2, iv, forged)
 	p := parts{enc: true, auth: true, sid: s.ConsoleID, seq: pkt.Seq, payload: encPayload, trailer: true}
 	key, integ := s.K1, s.Suite.Integ
